@@ -1,9 +1,9 @@
 SPECIFICATION Spec
 CONSTANTS
-  Clients <- MC1Clients
-  Reqs <- MC1Reqs
-  Bg = "bg"
-  Handoff = FALSE
+  Clients <- MC3Clients
+  Reqs <- MC3Reqs
+  Bg = "none"
+  Handoff = TRUE
 INVARIANT RecvMutex
 INVARIANT CondMutex
 INVARIANT DispatchedOnce
@@ -12,5 +12,4 @@ INVARIANT Completed
 INVARIANT NoLostWakeup
 INVARIANT NoHang
 INVARIANT WillBeWoken
-INVARIANT OnlyKnownStalls
-PROPERTY Termination
+INVARIANT NoStall
